@@ -55,10 +55,11 @@ class Dtd:
 
 
 class DtdGen:
-    def __init__(self, rng, salt, hostile=False):
+    def __init__(self, rng, salt, hostile=False, namespaces=True):
         self.rng = rng
         self.salt = salt
         self.hostile = hostile
+        self.namespaces = namespaces  # declare a default / prefixed namespace through #FIXED xmlns attributes on the root
         self.used = set()
         self.class_names = ClassNames()
 
@@ -83,7 +84,7 @@ class DtdGen:
         n = rng.randrange(2, 7)
         names = [self.name() for _ in range(n)]
         d = Dtd([])
-        r = rng.random()
+        r = rng.random() if self.namespaces else 1.0
         if r < 0.2:
             d.default_ns = f"urn:dtdgen:{self.salt}:d"
             d.features.add("default-namespace")
@@ -244,6 +245,7 @@ class DocGen:
         self.ids = []
         self.id_counter = 0
         self.depth = 0
+        self.tails_after_mixed_children = False
 
     def document(self):
         from lxml import etree
@@ -306,8 +308,12 @@ class DocGen:
             elif e.kind == "MIXED":
                 el.text = rng.choice(["lead ", None, "x"])
                 for _ in range(0 if self.depth > 4 else rng.randrange(0, 3)):
-                    ch = self.element(rng.choice(e.mixed_names))
-                    ch.tail = rng.choice(["tail", None, " t "])
+                    cname = rng.choice(e.mixed_names)
+                    ch = self.element(cname)
+                    if self.tails_after_mixed_children or self.d.decl(cname).kind not in ("MIXED", "ANY"):
+                        # text after a child that has mixed/ANY content itself ends up inside that child:
+                        # open known finding C16/tail-after-mixed-child-moves-into-the-child (probe in vf/props/c16.py)
+                        ch.tail = rng.choice(["tail", None, " t "])
                     el.append(ch)
             elif e.kind == "ANY":
                 if rng.random() < 0.5 and self.depth < 4:
